@@ -209,11 +209,15 @@ CLAIMED = {
          "evaluation at a master location, on top of C09's model; tied to the code by exact differential runs over random master sets (the "
          "implementation's own supports and scalars at every master are compared with the model's weight rows). Theorem: for any number of "
          "masters and any weights the built value at master k differs from master k by at most the error of ONE rounding (1/2 for otRound) -- "
-         "errors do not accumulate. Master sorting, support computation, gvar/HVAR/MVAR/CFF2/GPOS merging and avar construction are checked "
+         "errors do not accumulate. Also modelled, over exact rationals, and tied by exact correspondence: _locationsToRegions, "
+         "_computeMasterSupports (box narrowing with the running best-ratio dict) and _computeDeltaWeights; theorems for ANY number of "
+         "masters and axes: a support is 1 at its own master and 0 at every earlier master, hence interpolating the deltas with the scalars "
+         "of all supports at master k gives master k (hypotheses: distinct locations inside the axis ranges, fewer axes first -- checked on "
+         "what VariationModel passes to the computation). Master sorting beyond that, gvar/HVAR/MVAR/CFF2/GPOS merging and avar construction are checked "
          "on the implementation: generated designspaces (axis maps, intermediate/corner/sparse masters, sources in random order, TrueType and "
          "CFF, per-master kerning exceptions, anchors, metrics) built with varLib.build and compared through HarfBuzz at every master's "
          "user-space location (testing).",
-         "Rocq proof of non-accumulating delta rounding over a model tied by differential correspondence + HarfBuzz master-reproduction sweeps"),
+         "Rocq proof of master reproduction (supports, delta weights, non-accumulating rounding) over a model tied by differential correspondence + HarfBuzz master-reproduction sweeps"),
  "C11": ("Gallina models of value-record printing and parsing (ast.ValueRecord.asFea / parse_valuerecord_, horizontal and vertical) and of "
          "the compilation of a chaining contextual rule into stored Backtrack/Input/LookAhead arrays with the OpenType matching rule, tied to "
          "feaLib/otlLib by differential runs (formats 1, 2 and 3 through ChainContextualBuilder). Theorems: a printed value record parses "
